@@ -7,6 +7,9 @@ use crate::{
     metrics::{MetricType, Metrics},
     sketch::CountMinSketch,
 };
+#[cfg(transparencies_stretto_verif)]
+use crate::verif::locks::Mutex;
+#[cfg(not(transparencies_stretto_verif))]
 use parking_lot::Mutex;
 use std::{
     collections::{hash_map::RandomState, HashMap},
@@ -250,6 +253,7 @@ macro_rules! impl_policy {
             /// the observer must not hang on a policy mutex that the code under test never releases
             fn verif_lock(&self) -> parking_lot::MutexGuard<'_, PolicyInner<S>> {
                 self.inner
+                    .raw()
                     .try_lock_for(std::time::Duration::from_secs(3))
                     .expect("verif: the policy mutex was not released within 3 s")
             }
